@@ -170,6 +170,15 @@ CHECKS = {
          "contain only novel transcripts in novel_gene_* genes.",
          "Trusted: GTF/BED parsers; 'annotated intron' = exact coordinates of a reference intron.",
          "DESIGN.md §3 C03/C04"),
+ "C14": ("exploration",
+         "deviation-bounded enumeration of noisy reads (<=1/2 edits from a 35-item noise menu) x 6 correction strategies x 2 presets through the pipeline; exhaustive enumeration of short-read intron subsets through the real IlluminaExonCorrector",
+         "Reads derived from a 7-exon isoform (with a 30-bp micro-exon and a 40-bp micro-intron) by junction jitter within/beyond delta, skipped "
+         "micro-exon, fake terminal exons, intron shifts, retained micro-intron, indels next to junctions, misplaced terminal exons and "
+         "truncation; every corrected_reads.bed record must be valid BED12, keep start/end unless the strategy has a terminal-exon correction, "
+         "use only the read's own splice sites, sites of the assigned isoform, or annotated sites within tolerance, and equal the input under "
+         "strategy none. Short-read corrector: all subsets of <=3/5 out of 17 short-read introns (around the constants 4/25/50) x 5 exon lists.",
+         "Trusted: BED parser; tolerance for moved sites = max(delta, 60) or membership in an assigned isoform.",
+         "DESIGN.md §3 C14"),
 }
 
 NOT_YET = {}
